@@ -99,8 +99,16 @@ func runHistory(r *core.Run, cid string, L int) {
 			if o, _, err := s.UpdateClient(a, b, s.RandRelayer(), 0); err == nil && o.OK() {
 				r.Count("client_updates", 1)
 			}
-		case x < 64:
+		case x < 62:
 			s.W.Roll(s.W.Nodes[rng.Intn(len(s.W.Nodes))])
+		case x < 64:
+			// governance replaces the client of one path by another type and back: whatever was accepted stays accepted
+			a, b := s.RandNodePair()
+			if err := s.ToggleRoundTrip(a, b); err != nil {
+				r.Inconclusive("%s: client toggle failed: %v", cid, err)
+				return
+			}
+			r.Count("client_toggles_round_trip", 1)
 		case x < 70:
 			h.doubleFresh()
 		case x < 80:
